@@ -73,6 +73,7 @@ func HC06_TargetDeath() {
 	}
 	x := hNew(prof, 6, capInc, relInc)
 	x.prefix(hDeathPrefixes[vChoice("prefix", len(hDeathPrefixes))])
+	x.checkStats()
 	steps := 1 + vTier()
 	for s := 0; s < steps; s++ {
 		x.deathStep(vChoice("op", hNDeathOps))
@@ -80,5 +81,6 @@ func HC06_TargetDeath() {
 	}
 	x.check()
 	x.checkQueries(true)
+	x.checkStats()
 	vReach("end")
 }
